@@ -12,7 +12,7 @@ import random
 import sys
 import traceback
 
-from .common import Tally
+from .common import Tally, jsonable
 
 
 def _run(job):
@@ -21,6 +21,10 @@ def _run(job):
         out = fn(*args)
         if not isinstance(out, Tally):
             raise TypeError(f"shard {fn.__name__} returned {type(out)}")
+        # every violation remembers the shard that found it, so that it can be re-executed without the explorer
+        for v in out.violations:
+            if isinstance(v.get("case"), dict) and "_shard" not in v["case"]:
+                v["case"]["_shard"] = {"module": fn.__module__, "function": fn.__name__, "args": jsonable(list(args))}
         return ("ok", out)
     except BaseException:  # harness failure, never a violation
         return ("err", f"{fn.__module__}.{fn.__name__}{args!r}\n{traceback.format_exc()}")
